@@ -19,6 +19,7 @@ Vocabulary (all defined in `Lemmas/Ser*.lean`, `Spec/ArchiveImage.lean`):
 * `imageSize c a`   — the size of the image; the 32-bit format needs it `< 2^32`.
 -/
 import MilaModel.Lemmas.SerObs
+import MilaModel.Lemmas.SerOracle
 
 namespace Mila.Props.C01
 open Mila Mila.BinArchive Mila.Ser Mila.Spec.Image
@@ -131,6 +132,14 @@ theorem parse_serialize_no_cstrings (c : Codec) (D : Str → Prop) (a : BinArchi
         · intro q hq; rw [hC] at hq; cases hq
     unfold readPointer validateCell
     rw [hsz, hptr]
+
+/-- **The driver's executable conformance oracle is sound**: whenever `conformsCheck` (the
+decision procedure the `binser` stream runs on the implementation's images and on the spec-side
+generator's foreign images) reports no violated clause, the declarative relation `Conforms` holds
+— so an accepted image is one to which `parse_conforming` applies. -/
+theorem oracle_sound (enc : Bytes → Option Bytes) (e : Endian) (f : Bytes) (K : Content)
+    (h : conformsCheck enc e f K = none) : Conforms enc e f K :=
+  conformsCheck_sound enc e f K h
 
 /-! ### non-vacuity: a concrete archive of the domain (string + c-string + end label, the D1 shape) -/
 
